@@ -1,6 +1,7 @@
 package main
 
 import (
+	"encoding/json"
 	"flag"
 	"fmt"
 	"os"
@@ -90,6 +91,20 @@ func main() {
 		os.Exit(code)
 	}
 	switch cmd {
+	case "pins":
+		// (re)write spec/trusted_pins.json: the bodies the trusted contracts are trusted for
+		pins := map[string]string{}
+		for n, u := range prog.Units {
+			if u.Spec != nil && u.Spec.Flags["trusted"] && u.Body != nil {
+				pins[n] = en.bodyPin(u)
+			}
+		}
+		data, _ := json.MarshalIndent(pins, "", " ")
+		if err := os.WriteFile(filepath.Join(en.specDir, "trusted_pins.json"), append(data, '\n'), 0o644); err != nil {
+			fmt.Println(err)
+			leave(2)
+		}
+		fmt.Printf("%d trusted bodies pinned\n", len(pins))
 	case "units":
 		var names []string
 		for n, u := range prog.Units {
